@@ -84,6 +84,8 @@ struct Aligning {
 }
 
 const ALIGN_BUDGET: u64 = 30_000;
+/// Flag bit in an alignment mask: keep the parked task parked after the caller blocked.
+pub const ALIGN_HOLD: u16 = 1 << 15;
 
 struct Frozen {
     victim: usize,
@@ -227,9 +229,14 @@ impl Scheduler for SimScheduler {
                         run_ids = others;
                     }
                 }
-                Some(_) => {
+                Some(v) => {
                     if run_ids.contains(&a.caller) && !expired {
                         run_ids = vec![a.caller];
+                    } else if a.mask & ALIGN_HOLD != 0 && !expired && run_ids.iter().any(|t| *t != v) {
+                        // the caller is blocked or done: with the hold flag the parked task stays
+                        // parked while anybody else can run (e.g. a racer reacting to what the
+                        // caller just did), up to the budget
+                        run_ids.retain(|t| *t != v);
                     } else {
                         self.align = None;
                     }
